@@ -28,6 +28,7 @@ def run(ctx: Context) -> None:
     ctx.rule('R12.7', "the accessor finds depth and time variables among all variables of the dataset (a coordinate the file does not flag is a plain variable), and hands the reduction the time coordinate as the only non-spatial variable", floor=6)
     from . import infra as _infra
     _infra.lookup_namespace(ctx, 'R12.7', ['depth_coordinates', 'depth_coordinate', 'time_coordinate'])
+    _infra.constant_name_lookups(ctx, 'R12.7', ['time_coordinate'])
     _infra.wrapper_non_spatial(ctx, 'R12.7')
     from .common import adopt_foundations as _adopt
     _adopt(ctx, 'R12.6', ['order'], floor=60)
